@@ -83,7 +83,21 @@ def objectives():
         ("sum(w[::2]**2)+sum(w[:0:-1])", add(("sum", ("vpow", ("slice", W3, None, None, 2), 2)), ("sum", ("slice", W3, None, 0, -1)))),
         ("frob(S)", ("frob", S)), ("x10**x9", ("bin", "**", x10, x9)), ("2**x9+x10", add(("bin", "**", c(2), x9), x10)),
         ("s/t", ("bin", "/", s_, t_)), ("exp(s)**t", ("bin", "**", ("un", "exp", s_), ("un", "sin", t_))),
-    ] + block_objectives()
+    ] + block_objectives() + digit_name_objectives()
+
+
+def digit_name_objectives():
+    """containers whose BASE NAME embeds a number (x2 / x10: numeric order != lexicographic order) and a scalar sharing
+    a stem with a vector (w3 / w2[...])"""
+    x2v, x10v = ("vvar", "x2", 2), ("vvar", "x10", 2)
+    w2v, w3 = ("vvar", "w2", 3), ("var", "w3")
+    A2, A10 = ("mvar", "A2", 2, 2, False), ("mvar", "A10", 1, 2, False)
+    return [
+        ("sum(x10v)+sum(x2v)", add(("sum", x10v), ("sum", x2v))), ("x10v.x2v", ("dot", x10v, x2v)),
+        ("sum(x2v)+x10+x9", add(add(("sum", x2v), x10), x9)), ("w3+sum(w2v)", add(w3, ("sum", w2v))),
+        ("sum(w2v)+w3**2", add(("sum", w2v), ("bin", "**", w3, c(2)))), ("sum(A10)+sum(A2)", add(("msum", A10), ("msum", A2))),
+        ("sum(x10v**2)+sum(x2v)", add(("sum", ("vpow", x10v, 2)), ("sum", x2v))),
+    ]
 
 
 def block_objectives():
